@@ -82,7 +82,8 @@ class Pat:
         self.types, self.template, self.ty = types, template, ty
 
 
-COQ_TY = {'Z': 'Z', 'bool': 'bool', 'optZ': 'option Z', 'nat': 'nat', 'unit': 'unit'}
+BASE_COQ_TY = {'Z': 'Z', 'bool': 'bool', 'optZ': 'option Z', 'nat': 'nat', 'unit': 'unit'}
+COQ_TY = dict(BASE_COQ_TY)
 
 
 def coq_ty(t):
@@ -149,6 +150,8 @@ class FnTranslator:
         self.truthy = cfg.get('truthy', {})           # config type -> bool template ({0} = the value)
         self.ignore = [re.compile(r) for r in cfg.get('ignore_stmts', [])]   # statements without effect on the model
         self.rewrites = cfg.get('stmt_rewrites', [])  # (exact text | 'sha256:<hex>', replacement python source)
+        COQ_TY.clear()
+        COQ_TY.update(BASE_COQ_TY)                    # config types are per target
         for t, c in cfg.get('types', {}).items():
             COQ_TY[t] = c
         self.loops = []                               # emitted Fixpoints (text)
@@ -365,6 +368,16 @@ class FnTranslator:
             if tyl == 'optZ' and tyr == 'Z' and tl is not None:
                 eq = '(match %s with None => false | Some n__ => n__ =? %s end)' % (tl, tr_)
                 return gl + gr, eq if isinstance(n.ops[0], ast.Eq) else '(negb %s)' % eq, 'bool'
+        if isinstance(n, ast.Compare) and len(n.ops) == 1 and isinstance(n.ops[0], (ast.In, ast.NotIn)) \
+                and isinstance(n.comparators[0], ast.Tuple) and n.comparators[0].elts:
+            # x in (a, b, ..)  ==  x == a or x == b or ..   (x must not raise: it is evaluated once)
+            gx, _, _ = self.tr(n.left, env)
+            self.pure(gx, n.left)
+            eqs = [ast.Compare(left=n.left, ops=[ast.Eq()], comparators=[e]) for e in n.comparators[0].elts]
+            d = eqs[0] if len(eqs) == 1 else ast.BoolOp(op=ast.Or(), values=eqs)
+            d = ast.fix_missing_locations(ast.copy_location(d, n))
+            g, t, ty = self.tr(d, env)
+            return g, t if isinstance(n.ops[0], ast.In) else '(negb %s)' % t, 'bool'
         if isinstance(n, ast.Compare):
             cops = {ast.Lt: '<?', ast.LtE: '<=?', ast.Gt: '>?', ast.GtE: '>=?', ast.Eq: '=?'}
             operands = [n.left] + list(n.comparators)
@@ -496,6 +509,16 @@ class FnTranslator:
     def cond(self, test, env, ctx, kt, kf):
         if isinstance(test, ast.UnaryOp) and isinstance(test.op, ast.Not):
             return self.cond(test.operand, env, ctx, kf, kt)
+        if isinstance(test, ast.Compare) and len(test.ops) == 1 and isinstance(test.ops[0], (ast.In, ast.NotIn)) \
+                and isinstance(test.comparators[0], ast.Tuple) and len(test.comparators[0].elts) > 1:
+            # x in (a, b, ..) with members that can raise: the short-circuit `or` of the equalities
+            gx, _, _ = self.tr(test.left, env)
+            self.pure(gx, test.left)
+            eqs = [ast.Compare(left=test.left, ops=[ast.Eq()], comparators=[e]) for e in test.comparators[0].elts]
+            d = ast.fix_missing_locations(ast.copy_location(ast.BoolOp(op=ast.Or(), values=eqs), test))
+            if isinstance(test.ops[0], ast.NotIn):
+                kt, kf = kf, kt
+            return self.cond(d, env, ctx, kt, kf)
         if isinstance(test, ast.BoolOp):
             try:
                 g, t, ty = self.tr(test, env)
@@ -728,7 +751,8 @@ class FnTranslator:
                 if u in self.binds:
                     return krest(env.bind(x, None, self.binds[u]))
                 if isinstance(value, ast.JoinedStr) or (isinstance(value, ast.Constant) and isinstance(value.value, str)):
-                    return krest(env.bind(x, None, 'opaque'))
+                    if not any(pmatch(pt.ast, value, {}) for pt in self.patterns):
+                        return krest(env.bind(x, None, 'opaque'))
                 if isinstance(value, ast.Constant) and value.value is None:
                     if not self.var_types.get(x, '').startswith('opt '):
                         refuse('%s = None without a declared optional type' % x, s)
@@ -979,7 +1003,8 @@ class FnTranslator:
                 if not isinstance(blk, list):
                     continue
                 for a, st in enumerate(blk):
-                    if isinstance(st, ast.stmt) and ast.unparse(st) == first:
+                    if isinstance(st, ast.stmt) and (ast.unparse(st) == first or
+                                                     (first.endswith(':') and ast.unparse(st).split('\n')[0] == first)):
                         for b in range(a, len(blk)):
                             if ast.unparse(blk[b]).split('\n')[0] == last:
                                 found.append(blk[a:b + 1])
@@ -1164,6 +1189,8 @@ def find_function(tree, cls, func):
 
 
 def stub(cfg, why):
+    COQ_TY.clear()
+    COQ_TY.update(BASE_COQ_TY)
     for t, c in cfg.get('types', {}).items():
         COQ_TY[t] = c
     args = ' '.join('(%s : %s)' % (a, coq_ty(t)) for a, t in cfg['args'])
